@@ -284,6 +284,48 @@ def guards(prog, res):
         else:
             res.fail(R, inst, "GUARD-DOM|simcam_set|binning", g.loc(s),
                      "simcam_set can store a binning factor that is zero or not a power of two: the full-resolution shape is then smaller than (or unrelated to) the reported one")
+    # the pixel type is one the size computation knows: bytes_of_type() answers 0 for a value outside the
+    # enumeration, the buffer size becomes 0, realloc(p, 0) releases p and returns NULL, and the allocation
+    # wrapper's failure branch frees p a second time
+    for bid, i, s in stores:
+        def known_type(cn, lab, blk):
+            if lab not in ("true", "false"):
+                return False
+            c0 = ir.strip(congr.resolve_at(prog, g, (blk.id, blk.cond if blk.cond is not None else len(blk.stmts)), cn))
+            neg = False
+            while isinstance(c0, dict) and c0.get("k") == "un" and c0.get("op") == "!":
+                neg = not neg
+                c0 = ir.strip(c0["e"])
+            if not isinstance(c0, dict):
+                return False
+            mentions = lambda e: any(isinstance(y, dict) and y.get("k") == "mem" and y.get("f") == "pixel_type" for y in ir.walk(e))
+            nz = None    # label on which the type is known
+            if c0.get("k") == "bin" and c0["op"] in ("==", "!=") and ir.is_const(c0["r"], 0):
+                inner = ir.strip(c0["l"])
+                if c0["op"] == "==":
+                    neg = not neg
+                c0 = inner
+            if c0.get("k") == "call" and c0.get("fn") == "bytes_of_type" and mentions(c0):
+                nz = "true"
+            elif c0.get("k") == "bin" and c0["op"] == "&" and mentions(c0):
+                nz = "true"
+            elif c0.get("k") == "bin" and c0["op"] in ("<", "<=") and mentions(c0["l"]) and ir.is_const(c0["r"]):
+                nz = "true"
+            elif c0.get("k") == "bin" and c0["op"] in (">=", ">") and mentions(c0["l"]) and ir.is_const(c0["r"]):
+                nz = "false"
+            if nz is None:
+                return False
+            if neg:
+                nz = "false" if nz == "true" else "true"
+            return lab == nz
+        dom, _ = paths.edge_dominated(g, (bid, i), known_type)
+        inst = "simcam_set: properties stored only for a pixel type with a known size"
+        if dom:
+            res.oblige(R, inst, True, "dominated by a test of the requested pixel type", g.loc(s))
+        else:
+            res.fail(R, inst, "GUARD-DOM|simcam_set|pixel_type", g.loc(s),
+                     "simcam_set stores and sizes its buffers for any pixel type value: for one outside the enumeration bytes_of_type() is 0, the buffer size is 0, "
+                     "realloc(p, 0) releases the buffer and returns NULL, and checked_realloc's failure branch frees it again (double free); the rejected value also stays in properties")
     # read-back: clamped shape stored on every path after the struct copy
     for bid, i, s in stores:
         def shape_store(ss):
